@@ -261,7 +261,8 @@ def make_contained(prog, op, variant='single'):
             # a fresh reader (BlockDir caches, listings) is created by every operation below
             after = version_views(ex, st, ar)
             changed = [b for b in before if before[b] != after.get(b)]
-            tail_removed = role == 'tail' and how == 'delete'
+            # a removed tail is the format's legal 'incomplete' state, and so is a zero-length one (a backup killed while writing it)
+            tail_removed = role == 'tail' and how in ('delete', 'empty')
             harmful = bool(changed) and not tail_removed
             out = {'target': role, 'path': path, 'how': how, 'problems': [], 'harmful': harmful, 'changed_versions': changed}
             if op == 'validate':
